@@ -28,10 +28,10 @@ def gen(run):
 
 
 fam.make(globals(), "C01", ["C01", "C01r"], gen)
-COQ_TARGETS = ["theories/Props/C01.vo"]
-COQCHK = ["MS.Props.C01"]
+COQ_TARGETS = ["theories/Props/C01.vo", "theories/Props/C01a.vo"]
+COQCHK = ["MS.Props.C01", "MS.Props.C01a"]
 REQUIRES = ["From Coq Require Import List NArith ZArith Bool.", "From Coq.Strings Require Import Byte.",
-            "From MS Require Import Base.Bytes Base.Outcome Base.Prog Mp4.Header Mp4.Box Mp4.San Mp4.Spec Mp4.ShiftSpec Props.C01.",
+            "From MS Require Import Base.Bytes Base.Outcome Base.Prog Mp4.Header Mp4.Box Mp4.San Mp4.Spec Mp4.ShiftSpec Mp4.SpliceSpec Props.C01 Props.C01a.",
             "Import ListNotations.", "Open Scope N_scope."]
 _SHIFT = "each_trak kids (shift_table (shift_entry 32 d) (shift_entry 64 d))"
 THEOREMS = [
@@ -84,6 +84,20 @@ THEOREMS = [
    exists d m ts t e, plan_of inp bs = Some (Shift d) /\\ last_moov bs = Some m /\\
      co_tables (tb_payload inp m) = Some ts /\\ In t ts /\\ In e (snd t) /\\ shift (fst t) d e = None) ->
   is_ok (mp4_sanitize cfg lenient U64MAX' inp fuel) = false"""),
+    ("C01_same_media_byte", """forall (cfg : config) (lenient : bool) (inp : input) (fuel : nat) (o : out) (md : bytes) (pad : N),
+  ilen inp <= U64MAX -> (forall t, cumulative_mdat_box_size cfg = Some t -> t <= U32MAX) ->
+  mp4_sanitize cfg lenient U64MAX' inp fuel = Ok o -> o_metadata o = Some (md, pad) ->
+  exists bs m fp mp' psz ts,
+    tiling (cumulative_mdat_box_size cfg) inp = Some bs /\\ last_moov bs = Some m /\\
+    metadata_shape (md_input md pad) = Some (fp, mp', psz) /\\
+    co_tables (tb_payload inp m) = Some ts /\\
+    let off := s_off (o_data o) in
+    let len := s_len (o_data o) in
+    let J := splice md pad inp off len in
+    let new := fun e : N => Z.to_N (Z.of_N e + (Z.of_N (blen md + pad) - Z.of_N off)) in
+    co_tables mp' = Some (map (fun t : N * list N => (fst t, map new (snd t))) ts) /\\
+    forall t e k, In t ts -> In e (snd t) -> off <= e + k < off + len ->
+      new e + k < ilen J /\\ iget J (new e + k) = iget inp (e + k)"""),
 ]
 TRUSTED = fam.TRUSTED_COMMON + [
     "Base/AddSignedProofs.v (C20): the regenerated kernel checked_add_signed equals exact integer addition with range check",
@@ -110,7 +124,9 @@ LEVEL_TEXT = ("Coq theorems, no axioms. TOP LEVEL (whole inputs, every configura
               "consequence, not an assumption); C01_overflow_rejected_toplevel - a Refuse plan, or a Shift under which some entry would leave its "
               "field, is never answered with Ok (derived from C05_accept_iff_rules). PAYLOAD LEVEL (one moov payload, d in [-2^31, 2^31)): "
               "C01_tables_found, C01_shape_preserved, C01_offsets_shifted (using C20's theorem for the regenerated checked_add_signed), "
-              "C01_overflow_rejected, C01_rejected_only_on_overflow. The model is tied to the code by the differential batch (extracted model vs the "
+              "C01_overflow_rejected, C01_rejected_only_on_overflow. C01_same_media_byte (Props/C01a.v) is the title itself: in the file the caller writes "
+              "(metadata, padding, media span) position (new entry)+k holds the byte the input held at (old entry)+k, for every entry and every k "
+              "with (old entry)+k inside the media span. The model is tied to the code by the differential batch (extracted model vs the "
               "real sanitizer on rewrite layouts), and the extracted specification judges the implementation's returned metadata directly.")
 LEVEL_NOTE = ("Trusted: Coq kernel; the hand-written models Mp4/{Header,Box,San}.v (tied by the batch); Mp4/Spec.v + Mp4/ShiftSpec.v as the meaning of "
               "`chunk-offset tables`, `shifted by delta` and `the metadata read as boxes`; extraction and the OCaml driver; the Rust harness and its "
